@@ -1,7 +1,11 @@
 """C02 — a registered system is the exact linear model of the receptor responses."""
 import numpy as np
-from common import F, rs, vs, ms, dyadic, close, call
+from common import F, rs, vs, ms, dyadic, close, call, as_given, err_kind
 from p01 import dom_text
+
+
+class ImplError(Exception):
+    """an implementation call (routed through common.call for the frame condition) raised: (error kind, message)"""
 
 
 def gen_system(rng, nf=None, ns=None, positive=True):
@@ -19,6 +23,17 @@ def gen_system(rng, nf=None, ns=None, positive=True):
     src = dyadic(rng, 0, 2, 4, size=(ns, nd))
     src[np.arange(ns), rng.integers(0, nd, size=ns)] += 0.5
     return nf, ns, nd, dom, dkind, filt, src
+
+
+def gen_gains(rng, nf, ns):
+    """dynamic range of the system: receptors of very different sensitivity to the light at hand (a UV opsin under a red
+    LED next to a green opsin: ten decades) and sources of very different power. Exact powers of two, so that every
+    product and sum of the dyadic data stays exactly representable and the exact model sees the same values."""
+    rk = str(rng.choice(["unit", "unit", "wide"]))
+    fg = np.ones(nf) if rk == "unit" else 2.0 ** (-8.0 * rng.integers(0, 7, size=nf))     # 1 .. 2^-48 (14 decades)
+    sk = str(rng.choice(["unit", "unit", "unit", "wide"]))
+    sg = np.ones(ns) if sk == "unit" else 2.0 ** (-4.0 * rng.integers(0, 6, size=ns))     # 1 .. 2^-20 (6 decades)
+    return rk, fg, sk, sg
 
 
 def gen_K(rng, nf):
@@ -51,8 +66,13 @@ def run(R):
     R.rule = ("real ReceptorEstimator from dyadic filters (2-5) / sources (1-8), scalar-step and array domains, "
               "K scalar/vector/non-symmetric matrix, baseline 0/scalar/vector, single and batched intensities; compares A, "
               "system_capture, capture of the physically mixed spectrum, (system_)relative_capture, K after both adaptation "
-              "calls (add/replace, add_baseline on/off) with the exact model. Non-trivial: >=2 sources, K not scalar or "
-              "baseline non-zero, distinct rows.")
+              "calls (add/replace, add_baseline on/off) with the exact model. Dynamic range: in a third of the systems the "
+              "receptors differ in sensitivity by exact powers of two up to 2^48 (adapting captures up to 14 decades apart, "
+              "baseline zero or of the order of the receptor's own capture), in a quarter the sources differ in power up to "
+              "2^20. Representations: filters, sources, domain, K, baseline, intensities and backgrounds are handed over as "
+              "float/integer (whole-number intensities) arrays, Fortran-ordered, strided views or lists (as_given); every call "
+              "is checked for the frame condition (arguments and registered state unchanged by a query). Non-trivial: >=2 "
+              "sources, K not scalar or baseline non-zero, distinct rows.")
     RT = 1e-10
     todo = []
     for k in range(n):
@@ -60,39 +80,67 @@ def run(R):
             continue
         rng = R.rng(1, k)
         nf, ns, nd, dom, dkind, filt, src = gen_system(rng)
+        rk, fg, sk, sg = gen_gains(rng, nf, ns)
+        filt = filt * fg[:, None]; src = src * sg[:, None]
         kk, K = gen_K(rng, nf)
         bk, base = gen_base(rng, nf)
+        if rk == "wide":
+            # a baseline of the order of each receptor's own capture (vector) or of the least sensitive one (scalar)
+            base = base * (fg if bk == "vector" else float(np.min(fg)))
         nx = int(rng.integers(1, 4))
-        X = dyadic(rng, 0, 3, 3, size=(nx, ns))
-        bgx = dyadic(rng, 0.25, 2, 2, size=ns)
+        whole = bool(rng.integers(4) == 0)     # whole-number intensities: may be handed in with an integer dtype
+        X = dyadic(rng, 0, 3, 0 if whole else 3, size=(nx, ns))
+        bgx = dyadic(rng, 1, 2, 0, size=ns) if whole else dyadic(rng, 0.25, 2, 2, size=ns)
         bgspec = dyadic(rng, 0.125, 2, 3, size=nd)
         add_baseline = bool(rng.integers(4) > 0)
         add = bool(rng.integers(3) == 0)
         c = dict(k=k, nf=nf, ns=ns, nd=nd, domain_kind=dkind, dom=dom, K_kind=str(kk), K=K, baseline_kind=str(bk),
-                 baseline=base, filters=filt, sources=src, X=X, bg_x=bgx, bg_spec=bgspec, add_baseline=add_baseline, add=add)
-        for key in ("domain_kind", "K_kind", "baseline_kind"):
+                 baseline=base, filters=filt, sources=src, X=X, bg_x=bgx, bg_spec=bgspec, add_baseline=add_baseline, add=add,
+                 receptor_range=rk, source_range=sk)
+        for key in ("domain_kind", "K_kind", "baseline_kind", "receptor_range", "source_range"):
             R.count("%s:%s" % (key, c[key]))
         R.count("adapt:add=%s,add_baseline=%s" % (add, add_baseline))
+        # the same VALUES in the representation a caller may hold them in (the model sees the values only); the
+        # implementation gets its own copies, the exact model works from the originals
+        g = dict(filt=as_given(rng, filt.copy(), R, "filters"), src=as_given(rng, src.copy(), R, "sources"),
+                 X=as_given(rng, X.copy(), R, "X"), x0=as_given(rng, X[0].copy(), R, "x"),
+                 bgx=as_given(rng, bgx.copy(), R, "bg_x"), bgspec=as_given(rng, bgspec.copy(), R, "bg_spec"),
+                 dom=(dom if np.isscalar(dom) else as_given(rng, dom.copy(), R, "domain", kinds=("same", "list", "strided"))),
+                 K=(K if np.isscalar(K) else as_given(rng, K.copy(), R, "K")),
+                 base=(base if np.isscalar(base) else as_given(rng, base.copy(), R, "baseline")))
 
-        def impl():
-            est = dreye.ReceptorEstimator(filt, domain=dom, K=K, baseline=base, sources=src)
-            out = dict(A=est.A.copy(), sc=est.system_capture(X), src=est.system_relative_capture(X))
+        def q(f, *a, **kw):
+            # every implementation call goes through common.call: the arrays handed in and the registered state of the
+            # estimator must be unchanged afterwards (frame condition; registration calls may change the state only)
+            st_, v = call(f, *a, **kw)
+            if st_ != "ok":
+                raise ImplError(st_, v)
+            return v
+
+        def impl(g=g, X=X, src=src, bgspec=bgspec, add_baseline=add_baseline, add=add, kk=kk):
+            est = q(dreye.ReceptorEstimator, g["filt"], domain=g["dom"], K=g["K"], baseline=g["base"], sources=g["src"])
+            out = dict(A=est.A.copy(), sc=q(est.system_capture, g["X"]), src=q(est.system_relative_capture, g["X"]))
             mix = X @ src
-            out["cap_mix"] = est.capture(mix)
-            out["relcap_mix"] = est.relative_capture(mix)
-            out["sc1"] = est.system_capture(X[0])          # a single (1-D) intensity vector
+            out["cap_mix"] = q(est.capture, mix)
+            out["relcap_mix"] = q(est.relative_capture, mix)
+            out["sc1"] = q(est.system_capture, g["x0"])          # a single (1-D) intensity vector
             # adaptation to a spectrum
             K0 = est.K.copy()
-            est.register_background_adaptation(bgspec, add_baseline=add_baseline, add=(add and kk != "matrix"))
+            q(est.register_background_adaptation, g["bgspec"], add_baseline=add_baseline, add=(add and kk != "matrix"))
             out["K_bg"] = est.K.copy()
-            out["q_bg"] = est.capture(bgspec)
-            out["rel_bg"] = est.relative_capture(bgspec[None])
-            est.register_adaptation(K0)
-            est.register_system_adaptation(bgx, add_baseline=add_baseline, add=(add and kk != "matrix"))
+            out["q_bg"] = q(est.capture, g["bgspec"])
+            out["rel_bg"] = q(est.relative_capture, bgspec[None])
+            q(est.register_adaptation, K0)
+            q(est.register_system_adaptation, g["bgx"], add_baseline=add_baseline, add=(add and kk != "matrix"))
             out["K_sys"] = est.K.copy()
-            out["rel_sys"] = est.system_relative_capture(bgx)
+            out["rel_sys"] = q(est.system_relative_capture, g["bgx"])
             return out
-        st, out = call(impl)
+        try:
+            st, out = "ok", impl()
+        except ImplError as e:
+            st, out = e.args
+        except Exception as e:  # noqa: BLE001
+            st, out = err_kind(e), "%s: %s" % (type(e).__name__, str(e)[:200])
         dt = dom_text(dom, True)
         R.driver.ask("a%d" % k, "systemA", dt, ms(filt), ms(src))
         R.driver.ask("m%d" % k, "capture", dt, ms(filt), ms(X @ src))   # X@src exact: dyadic, small
@@ -174,6 +222,11 @@ def run(R):
                 if np.shape(out["relcap_mix"]) != (len(Q), nf) or not close(out["relcap_mix"][i, j], r[j], scaleR, RT):
                     bad.append(("relative-mix", "relative_capture(mixed spectrum)[%d,%d] != K(Q+baseline)=%s" % (i, j, rs(r[j]))))
         # adaptation
+        basev = np.atleast_1d(c["baseline"])
+        for tag_, qv in (("spectrum", c["_qbs"]), ("intensities", c["_qbx"])):
+            # decades between the most and the least excited receptor under the adapting background (evidence only)
+            qa = [qj + (F(basev[j if basev.size > 1 else 0]) if c["add_baseline"] else 0) for j, qj in enumerate(qv)]
+            R.count("adapting-%s:receptor-captures-%s-decades-apart" % (tag_, "<=8" if max(qa) <= 10 ** 8 * min(qa) else ">8"))
         for tag, Kimpl, relb, kid in (("sys", out["K_sys"], out["rel_sys"], "ks%d" % k), ("bg", out["K_bg"], out["rel_bg"], "kb%d" % k)):
             km = R.driver.get(kid).vec()
             use_add = c["add"] and c["K_kind"] != "matrix"
